@@ -600,6 +600,11 @@ func (e *Engine) concreteValue(kind string, w int) uint64 {
 		}
 	case "bool":
 		return uint64(r.Intn(2))
+	case "byte":
+		// mostly printable ASCII, so that harness assumptions about text inputs hold often
+		if r.Intn(10) < 9 {
+			return uint64(0x21 + r.Intn(0x5e))
+		}
 	}
 	return r.Uint64() & mask(maxInt(w, 1))
 }
